@@ -3,6 +3,8 @@ package main
 import (
 	"math/rand"
 
+	"k8s.io/kube-openapi/pkg/validation/spec"
+
 	"sigs.k8s.io/kustomize/kyaml/kio/filters"
 	"sigs.k8s.io/kustomize/kyaml/yaml"
 )
@@ -45,7 +47,35 @@ func genFmtNode(r *rand.Rand, depth int, dup bool) interface{} {
 	return []interface{}{"q", 0, is}
 }
 
+var fmtScalarValues = []string{"8080", "on", "yes", "true", "1.5", "0x1F", "null", "~", "abc", "", "1e3", "012", "a b", "no", "NO", "Off", "2020-01-01", "1_000", "25%", "http", "-1", "+1", ".5", "y"}
+
 func init() {
+	// fmt.nonstring: yaml.FormatNonStringStyle (the schema-aware quoting step of FormatFilter{UseSchema: true}) on one
+	// scalar under one schema: every tag, adversarial texts, every quoting style, every schema type/format.
+	components["fmt.nonstring"] = func(r *rand.Rand, tier string) (map[string]interface{}, func() (interface{}, string)) {
+		tag := pick(r, []string{"!!str", "!!str", "!!int", "!!bool", "!!float", "!!null", ""})
+		val := pick(r, fmtScalarValues)
+		style := []int{0, 0, 2, 4, 8, 16, 1, 3}[r.Intn(8)]
+		types := [][]string{{}, {"string"}, {"string"}, {"string"}, {"integer"}, {"integer"}, {"boolean"}, {"number"}, {"object"}, {"array"}, {"string", "null"}}[r.Intn(11)]
+		format := pick(r, []string{"", "", "int-or-string", "int-or-string", "date-time", "int32"})
+		tl := []interface{}{}
+		for _, t := range types {
+			tl = append(tl, t)
+		}
+		args := map[string]interface{}{"tag": tag, "value": val, "style": style, "types": tl, "format": format, "ns": nsGraph(val)}
+		return args, func() (interface{}, string) {
+			n := &yaml.Node{Kind: yaml.ScalarNode, Tag: tag, Value: val, Style: yaml.Style(style)}
+			yaml.FormatNonStringStyle(n, spec.Schema{SchemaProps: spec.SchemaProps{Type: types, Format: format}})
+			cl := "unchanged"
+			if n.Tag != tag || int(n.Style) != style || n.Value != val {
+				cl = "changed"
+				if len(types) == 1 {
+					cl += "-" + types[0]
+				}
+			}
+			return map[string]interface{}{"ok": map[string]interface{}{"tag": n.Tag, "value": n.Value, "style": int(n.Style)}}, cl
+		}
+	}
 	components["fmt.node"] = func(r *rand.Rand, tier string) (map[string]interface{}, func() (interface{}, string)) {
 		kind := pick(r, []string{"Deployment", "Deployment", "ConfigMap", "MyKind", "ValidatingWebhookConfiguration", "StatefulSet"})
 		apiv := pick(r, []string{"apps/v1", "apps/v1", "v1", "example.com/v1", "admissionregistration.k8s.io/v1"})
